@@ -289,3 +289,67 @@ Example C06_wrt_spots_example :
   /\ incl (exogenized_spots p [2; 3; 4]) (base_spots [2; 3; 4] [0; 1])
   /\ (forall s, In s (endogenized_spots p [2; 3; 4]) -> ~ In s (base_spots [2; 3; 4] [0; 1])).
 Proof. exact wrt_spots_example. Qed.
+
+From Verif Require Import lib.SimProg gen.SimReportGen model.SimReport proofs.SimReportProofs.
+
+(* 12. "Whenever a simulation reports success": the report of Inlay.simulate over ANY number of variants and frames.
+       sim_program, stream_add, stream_fin come from gen/SimReportGen.v (the statement shapes of the loops of
+       Inlay.simulate and of the four streams of wrongdoings.py, regenerated on every run); status is the oracle of
+       the per-frame exit statuses (the Newton solver).  For when_fails in {critical, error, warning} simulate()
+       returns normally and without a warning iff every frame of every variant reports success ... *)
+Theorem C06_simulate_reports_success_iff : forall k status nfs, k <> WSilent ->
+  reports_success (simulate_report k status nfs) = true <-> all_success status nfs.
+Proof. exact simulate_reports_success_iff. Qed.
+Print Assumptions C06_simulate_reports_success_iff.
+
+(* ... so whatever a successful frame guarantees (C06_stacked_zero_iff_all_zero: every equation x period of the frame
+   within tolerance) holds in every frame of every variant when simulate() reports success *)
+Theorem C06_simulate_success_every_frame_within : forall k status nfs (within : nat -> nat -> Prop), k <> WSilent ->
+  (forall v f, status v f = true -> within v f) ->
+  reports_success (simulate_report k status nfs) = true ->
+  forall v f, (v < length nfs)%nat -> (f < nth v nfs 0%nat)%nat -> within v f.
+Proof. exact simulate_success_every_frame_within. Qed.
+Print Assumptions C06_simulate_success_every_frame_within.
+
+(* the same for every program shape with the report inside the frame loop and every reporting stream *)
+Theorem C06_report_iff_all_frames : forall add_of fin_of k status p, report_in_frame_loop p = true ->
+  forall nfs, reporting_kind add_of fin_of k = true ->
+  reports_success (simulate_outcome add_of fin_of k status p nfs) = true <-> all_success status nfs.
+Proof. exact report_iff_all_frames. Qed.
+Print Assumptions C06_report_iff_all_frames.
+
+Theorem C06_sim_program_shape : report_in_frame_loop sim_program = true
+  /\ reporting_kind stream_add stream_fin default_when_fails = true.
+Proof. exact (conj sim_program_shape default_kind_reports). Qed.
+Print Assumptions C06_sim_program_shape.
+
+(* when_fails="silent" never reports: the per-frame statuses of return_info are then the report *)
+Theorem C06_silent_never_reports : forall status nfs,
+  simulate_report WSilent status nfs = OReturned \/ simulate_report WSilent status nfs = ONameError.
+Proof. exact silent_never_reports. Qed.
+Print Assumptions C06_silent_never_reports.
+
+(* 13. the equations in force are the MODEL's: the dataslate row of a parameter / shock / std name, as assembled by
+       _slatable_for_simulate_or_kalman_filter (slatable_blocks), the wiring of the flags of simulate()
+       (sim_flag_wiring) and Variant.from_databox_variant (variant_post), all regenerated from the source: with the
+       flag of the group off the row is the model's value whatever the databox holds; with it on, the databox's values
+       with the model's value where the databox has nothing *)
+Theorem C06_simulate_row_by_flag : forall (V : Type) (is_nan : V -> bool) (src : group -> nat -> option V) nn sim_flags g n v row,
+  (n < nn)%nat -> src g n = Some v -> (forall g', g' <> g -> src g' n = None) ->
+  simulate_row is_nan src nn sim_flags n row
+  = if sim_flags g then map (fun x => if is_nan x then v else x) row else map (fun _ => v) row.
+Proof. exact simulate_row_by_flag. Qed.
+Print Assumptions C06_simulate_row_by_flag.
+
+Theorem C06_parameter_rows_ignore_databox : forall (V : Type) (is_nan : V -> bool) (src : group -> nat -> option V) nn sim_flags n v row row',
+  (n < nn)%nat -> src GParameters n = Some v -> (forall g', g' <> GParameters -> src g' n = None) ->
+  sim_flags GParameters = false -> length row = length row' ->
+  simulate_row is_nan src nn sim_flags n row = simulate_row is_nan src nn sim_flags n row'
+  /\ (forall c, (c < length row)%nat -> nth_error (simulate_row is_nan src nn sim_flags n row) c = Some v).
+Proof. exact parameter_rows_ignore_databox. Qed.
+Print Assumptions C06_parameter_rows_ignore_databox.
+
+Theorem C06_default_flags : sim_default_from_data GParameters = false
+  /\ sim_default_from_data GShocks = true /\ sim_default_from_data GStds = true.
+Proof. exact default_parameters_not_from_data. Qed.
+Print Assumptions C06_default_flags.
